@@ -207,3 +207,15 @@ def sched_targets(eng: Engine, p: Path, e: Event, fi: FuncInfo):
         if calls is not None:
             return [(c.fterm, tuple(c.args), tuple(c.kwargs)) for c in calls if c.fterm is not None and c.fterm[0] in ("bound", "func")]
     return []
+
+
+def field_of(prog: Program, tm, name: str):
+    """effective value of dataclass field `name` of an object term: looks through dataclasses.replace / constructor
+    field tables; returns ('default',) when a constructed object leaves the field to its default"""
+    if tm[0] == "replace":
+        d = dict(tm[2])
+        return d[name] if name in d else field_of(prog, tm[1], name)
+    if tm[0] == "new":
+        d = dict(tm[2])
+        return d.get(name, ("default",))
+    return ("attr", tm, name)
